@@ -36,7 +36,9 @@ META = dict(
     note="Tendon lengths/Jacobians and body-com Jacobians are the engine's (C07). Polynomial damping on ball/free joints is per dof and "
          "polynomial stiffness on ball/free joints acts on the geodesic distance (the only reading the docs allow). Fluid forces enter only "
          "the sum identity (their law is not part of the statement). Ball-spring cut locus (angle pi) and exact dead-band ends excluded from "
-         "the gradient test by a counted rule.",
+         "the gradient test by a counted rule. "
+         "Not covered: flex elasticity / edge spring-dampers, passive contact and adhesion forces, actuator-contributed tendon damping, "
+         "mjcb_passive and passive plugins (the statement is about joint/tendon springs, dampers and gravcomp).",
     design_ref="DESIGN.md §3 C29")
 
 TOL = 1e-10
